@@ -52,6 +52,9 @@ def run(tier, seed):
         plan.append(("chk", exe, 3, list(INITS), 0, None))
         plan.append(("chk", exe, 3, list(INITS), 1, None))
         plan.append(("chk-depth4", exe, 4, [1, 2, 5], 1, 400_000))
+    # a collection at the k-th allocation inside every call (k = 2..8; k = 1 is the pass above)
+    for k in range(2, 9):
+        plan.append(("chk-gc-at-alloc-%d" % k, exe, 1 if tier == "quick" else 2, list(INITS), 10 + k, None))
     aexe = asan_exe()
     plan.append(("asan", aexe, 1 if tier == "quick" else 2, list(INITS), 1, None))
     tot = {"states": 0, "transitions": 0, "runs": 0}
@@ -66,7 +69,7 @@ def run(tier, seed):
         tot["transitions"] += tr
         tot["runs"] += rn
         capped = any(o.get("capped") for o in outs)
-        passes.append({"build": label, "depth": depth, "initial_states": inits, "forced_collection_before_every_call": bool(gc), "model_states": st, "transitions": tr, "histories_replayed": rn, "capped_at_runs_per_shard": cap if capped else None, "wall_s": round(time.time() - t0, 1)})
+        passes.append({"build": label, "depth": depth, "initial_states": inits, "forced_collection_before_every_call": gc == 1, "collection_at_allocation_k_inside_every_call": (gc - 10) if gc >= 10 else None, "model_states": st, "transitions": tr, "histories_replayed": rn, "capped_at_runs_per_shard": cap if capped else None, "wall_s": round(time.time() - t0, 1)})
         for o in outs:
             if "death" in o:
                 init, gcs, hist = (o["cur"].split("|") + ["", "", ""])[:3]
